@@ -351,8 +351,10 @@ func (ipfs *Connector) Pin(ctx context.Context, pin *api.Pin) error {
 
 	// If we have a pin-update, and the old object
 	// is pinned recursively, then do pin/update.
-	// Otherwise do a normal pin.
-	if from := pin.PinUpdate; from != cid.Undef {
+	// Otherwise do a normal pin. pin/update always
+	// results in a recursive pin, so it cannot be used
+	// when a direct pin (depth 0) was requested.
+	if from := pin.PinUpdate; from != cid.Undef && maxDepth != 0 {
 		fromPin := api.PinWithOpts(from, pin.PinOptions)
 		pinStatus, _ := ipfs.PinLsCid(ctx, fromPin)
 		if pinStatus.IsPinned(-1) { // pinned recursively.
